@@ -36,7 +36,7 @@ ASSUMPTIONS = [
     "hugr-py's builders add nodes with increasing indices and record links faithfully (the real op sequence is read back from the Hugr)",
     "the structural validator (c01_validate.py) is my re-implementation of HUGR validation rules; extension-op signatures are taken "
     "from the op objects themselves (hugr-py computes them from the extension definitions)",
-    "Model/Wiring.lean is hand-written; agreement with compiler/core.py is established by the same-input correspondence run here",
+    "Model/DFWiring.lean is hand-written; agreement with compiler/core.py is established by the same-input correspondence run here",
 ]
 UNMODELLED = [
     "everything in lowering except DFContainer pack/unpack is covered by the validator search only (no Lean model): compile_bb "
@@ -53,13 +53,13 @@ MANIFEST = {
     "(DFContainer is a correct store; false before repair 32e45a7). The model is tied to compiler/core.py on every "
     "run by same-input correspondence against the real DFContainer (quick 400 / thorough 12000 scripts) with an independent oracle on the "
     "real Hugr. The rest of C01 (whole programs lower to structurally valid HUGR) is NOT proved: it is searched by lowering generated accepted "
-    "programs with the real compiler and checking them with a harness-side structural validator (quick ~120 / thorough ~3000 programs).",
+    "programs with the real compiler and checking them with a harness-side structural validator (quick ~120 / thorough ~2400 programs + ~580 programs of the repo test-suite).",
     "level_note": "partial. Proof level applies to the pack/unpack wiring discipline only. Port typing, linear-once, acyclicity, CFG row agreement, "
     "order edges, static edges of whole programs are checked by sampling with my own validator (no HUGR validator accepts /repo's output here). "
     "Trusted: Lean kernel + 3 std axioms; the validator; hugr-py builders; the generators' coverage.",
     "technique": "Lean 4 proof over a hand-written model + differential correspondence with DFContainer + generated-program search with a structural HUGR validator",
     "design_ref": "DESIGN.md §5 C01",
-    "ready": False,
+    "ready": True,
 }
 
 CORPUS = os.path.join(vlib.VERIF, "corpus", "c01")
@@ -74,7 +74,7 @@ def run_program(src: str):
     """-> (outcome, detail, info): outcome in ok | rejected | crash | invalid"""
     import feed
     import c01_validate as V
-    from guppylang_internals.error import GuppyError
+    from guppylang_internals.error import GuppyComptimeError, GuppyError
 
     m = None
     try:
@@ -86,10 +86,23 @@ def run_program(src: str):
         except Exception as e:  # noqa: BLE001  (decorator-time failure of generated text)
             return "rejected", "load:" + type(e).__name__, {}
         try:
-            g = feed.lower(defn)
-        except GuppyError as e:
+            from guppylang_internals.engine import ENGINE
+            ENGINE.check(defn.id)
+        except (GuppyError, GuppyComptimeError) as e:
             return "rejected", feed.err_class(e), {}
-        except RecursionError as e:
+        except RecursionError:
+            return "check-crash", "RecursionError", {}
+        except Exception as e:  # noqa: BLE001  (the checker itself crashed: the program was not accepted -> C02's business)
+            return "check-crash", f"{type(e).__name__}: {str(e)[:200]}", {}
+        try:
+            import hugr.build.function as hf
+            from guppylang_internals.compiler.core import CompilerContext
+            g = hf.Module()
+            CompilerContext(g).compile(ENGINE.checked[defn.id])
+        except GuppyError as e:
+            # user-level errors that are only detected while lowering (e.g. entry point needs monomorphization)
+            return "rejected", "lowering:" + feed.err_class(e), {}
+        except RecursionError:
             return "crash", "RecursionError", {}
         except Exception as e:  # noqa: BLE001
             import traceback
@@ -274,7 +287,7 @@ def _programs(ctx):
                 if "src" in d:
                     yield "corpus:" + d.get("name", fn), d["src"]
     n_struct = ctx.n(50, 1200)
-    n_gen = ctx.n(60, 1800)
+    n_gen = ctx.n(60, 1200)
     for _ in range(n_struct):
         yield "structgen", gen_struct_program(ctx.rng)
     try:
@@ -299,6 +312,14 @@ def _program_case(ctx, tag: str, src: str, budget_end: float | None = None) -> N
     if outcome == "rejected":
         ctx.bump(f"prog-rejected:{fam}")
         ctx.bump(f"rejected-as:{detail}")
+        return
+    if outcome == "check-crash":
+        # the checker crashed: the program was never accepted, so C01 promises nothing (this is C02's
+        # subject); recorded in the evidence so that it is not lost
+        ctx.bump(f"prog-checker-crash:{fam}")
+        ctx.extra.setdefault("checker_crashes", [])
+        if len(ctx.extra["checker_crashes"]) < 10:
+            ctx.extra["checker_crashes"].append({"detail": detail, "src": src})
         return
     key = "prog:" + _sha(src)
     ctx.count({"program": key, "family": fam, "nodes": info.get("nodes")}, nontrivial=True, kind=f"prog-{outcome}:{fam}")
@@ -363,7 +384,7 @@ def _wiring_batch(ctx, cases) -> None:
             ctx.violation("wiring:" + q, "DFContainer wiring violates the property on `" + q + "`: " + "; ".join(bad[:3]),
                           {"kind": "wiring", "case": c, "request": q, "real": p, "model": m, "oracle": bad})
         if p != m:
-            ctx.broke(f"correspondence Model/Wiring.lean vs DFContainer on `{q}` (real={p} model={m})")
+            ctx.broke(f"correspondence Model/DFWiring.lean vs DFContainer on `{q}` (real={p} model={m})")
 
 
 # ----------------------------------------------------------------------------- validator self-test, harvest
